@@ -5,25 +5,55 @@ use proc_macro2::{Ident, TokenStream};
 use quote::quote;
 use syn::{punctuated::Punctuated, token::Comma, Variant};
 
-pub struct Discriminants(HashMap<Ident, TokenStream>);
+pub struct Discriminants(HashMap<Ident, TokenStream>, HashMap<Ident, i128>);
+
+/// Value of a discriminant expression that consists of an integer literal (possibly negated).
+fn literal_value(expr: &syn::Expr) -> Option<i128> {
+    match expr {
+        syn::Expr::Lit(syn::ExprLit {
+            lit: syn::Lit::Int(lit),
+            ..
+        }) => lit.base10_parse::<i128>().ok(),
+        syn::Expr::Unary(syn::ExprUnary {
+            op: syn::UnOp::Neg(_),
+            expr,
+            ..
+        }) => literal_value(expr).and_then(i128::checked_neg),
+        syn::Expr::Group(syn::ExprGroup { expr, .. })
+        | syn::Expr::Paren(syn::ExprParen { expr, .. }) => literal_value(expr),
+        _ => None,
+    }
+}
+
 impl Discriminants {
     /// Calculates the discriminant that will be assigned by the compiler.
     /// See: https://doc.rust-lang.org/reference/items/enumerations.html#assigning-discriminant-values
     pub fn new(variants: &Punctuated<Variant, Comma>) -> Self {
         let mut map = HashMap::new();
+        let mut values = HashMap::new();
         let mut next_discriminant_if_not_specified = quote! {0};
+        // value of the next implicit discriminant, as long as it follows from integer literals
+        let mut next_value_if_not_specified: Option<i128> = Some(0);
 
         for variant in variants {
             let this_discriminant = variant.discriminant.clone().map_or_else(
                 || quote! { #next_discriminant_if_not_specified },
                 |(_, e)| quote! { #e },
             );
+            let this_value = match &variant.discriminant {
+                Some((_, e)) => literal_value(e),
+                None => next_value_if_not_specified,
+            };
 
             next_discriminant_if_not_specified = quote! { #this_discriminant + 1 };
+            next_value_if_not_specified = this_value.and_then(|value| value.checked_add(1));
             map.insert(variant.ident.clone(), this_discriminant);
+            if let Some(value) = this_value {
+                values.insert(variant.ident.clone(), value);
+            }
         }
 
-        Self(map)
+        Self(map, values)
     }
 
     pub fn get(
@@ -39,6 +69,17 @@ impl Discriminants {
             )
         })?;
         let result = if use_discriminant {
+            if let Some(value) = self.1.get(variant_ident) {
+                if u8::try_from(*value).is_err() {
+                    return Err(syn::Error::new(
+                        variant_ident.span(),
+                        format!(
+                            "discriminant value `{}` does not fit into `u8`, which is used as the variant tag with `use_discriminant = true`",
+                            value
+                        ),
+                    ));
+                }
+            }
             let discriminant_value = self.0.get(variant_ident).unwrap();
             quote! { #discriminant_value }
         } else {
